@@ -161,6 +161,11 @@ def encoder_modules(pvl, rng):
             mods.append(gen_module(rng, d, 80, col).module)
     mods.append(col.PVLModule([("g", col.PVLGroup([("a", 1)])), ("k", "two words")]))
     mods.append(col.PVLModule([("t", "both \" and '")]))
+    # characters outside one or the other dialect's set: a refusal must not
+    # change what the instance does with the same character next time
+    mods.append(col.PVLModule([("s", "caf\xe9"), ("u", col.Quantity(1, "\xb5m"))]))
+    mods.append(col.PVLModule([("s", "a\x07b")]))
+    mods.append(col.PVLModule([("g", col.PVLGroup([("s", "\u0394v caf\xe9 \x07")]))]))
     # "equal twins": values that compare equal (and hash alike) but are written
     # differently - a reused instance must not hand back the earlier text
     import datetime as dt
